@@ -2,6 +2,7 @@ package run
 
 import (
 	"bufio"
+	"os"
 	"encoding/json"
 	"fmt"
 	"strconv"
@@ -19,6 +20,20 @@ type BehWitness struct {
 // ReplayDump replays every behaviour TLC printed (lines of the form "{...}"
 // produced by PrintT(ToJson(..))) and returns how many were replayed.
 func (c *Ctx) ReplayDump(out string) (int, error) {
+	return c.replayDumpFrom(bufio.NewScanner(strings.NewReader(out)))
+}
+
+// ReplayDumpFile streams a dump that TLC wrote to a file.
+func (c *Ctx) ReplayDumpFile(path string) (int, error) {
+	f, err := os.Open(path)
+	if err != nil {
+		return 0, Brokenf("dump file: %v", err)
+	}
+	defer f.Close()
+	return c.replayDumpFrom(bufio.NewScanner(f))
+}
+
+func (c *Ctx) replayDumpFrom(sc *bufio.Scanner) (int, error) {
 	type job struct {
 		line string
 	}
@@ -83,7 +98,6 @@ func (c *Ctx) ReplayDump(out string) (int, error) {
 			}
 		}()
 	}
-	sc := bufio.NewScanner(strings.NewReader(out))
 	sc.Buffer(make([]byte, 1<<20), 1<<26)
 	for sc.Scan() {
 		line := sc.Text()
